@@ -148,3 +148,25 @@ Lemma reload_identity_refuted :
             | _ => False
             end.
 Proof. exists doc_mixed_split. vm_compute. auto. Qed.
+
+(* ---------- first half of C01 on the real tables ---------- *)
+From AV Require Import Xml.TablesOk Xml.TablesOkReal Xml.RoundTripCanonValues Xml.RoundTripCanon Xml.RoundTripCanonFinal.
+
+Lemma real_canon_hyps : canon_hyps RT tab_element tab_attr tab_enum no_float_fmt no_float.
+Proof.
+  split; [exact tables_ok_real|]. split; [vm_compute; reflexivity|]. split; [vm_compute; reflexivity|].
+  split; [vm_compute; reflexivity|]. split; [vm_compute; reflexivity|]. intros s b H. discriminate H.
+Qed.
+
+Definition known_of (d : list N) : option bool := match LOAD true d with Val (Ret t _) => Some (knownb RT t) | _ => None end.
+
+(* the recorded classes are recognised on the loaded tree; ordinary documents are outside them *)
+Open Scope string_scope.
+Definition doc_amp_pattern := doc "<AR-PACKAGES><AR-PACKAGE><SHORT-NAME>Pkg</SHORT-NAME><ADMIN-DATA><DOC-REVISIONS><DOC-REVISION><REVISION-LABEL>1.0.0;a&amp;b</REVISION-LABEL></DOC-REVISION></DOC-REVISIONS></ADMIN-DATA></AR-PACKAGE></AR-PACKAGES>".
+Definition doc_edge_blank := doc "<AR-PACKAGES><AR-PACKAGE><SHORT-NAME>Pkg</SHORT-NAME><DESC><L-2 L=""EN"">&#x20;lead</L-2></DESC></AR-PACKAGE></AR-PACKAGES>".
+Open Scope list_scope.
+Example known_plain : known_of doc_ok = Some false.               Proof. vm_compute. reflexivity. Qed.
+Example known_rich : known_of doc_rich = Some false.              Proof. vm_compute. reflexivity. Qed.
+Example known_mixed_split : known_of doc_mixed_split = Some true. Proof. vm_compute. reflexivity. Qed.
+Example known_edge_blank : known_of doc_edge_blank = Some true.   Proof. vm_compute. reflexivity. Qed.
+Example known_amp_pattern : known_of doc_amp_pattern = Some true. Proof. vm_compute. reflexivity. Qed.
